@@ -1761,7 +1761,7 @@ fn gen_c03(r: &mut Rng, seed: u64) -> Scenario {
     }
     let mut faults = Vec::new();
     match r.below(8) {
-        0 => {
+        0 | 5 => {
             opts.failspots |= 1;
             tags.push("stop-failspot".into());
         }
@@ -1769,7 +1769,7 @@ fn gen_c03(r: &mut Rng, seed: u64) -> Scenario {
             faults.push(FaultRule { trig: Trigger { kind: CallKind::Kill, nth: 0, path: None }, effect: Effect::Errno(1), times: 1, exotic: false });
             tags.push("stop-eperm".into());
         }
-        2 => {
+        2 | 6 => {
             for t in b.world.threads.iter_mut() {
                 t.stop_latency_ns = 200_000_000 + r.below(200_000_000);
             }
@@ -1921,8 +1921,29 @@ pub fn c03_sweep(sc: &Scenario, res: &crate::run::RunResult, limit: usize) -> Ve
         }
     }
     if cands.len() > limit {
+        // stratified sample: the same share for every class of injected fault
         r.shuffle(&mut cands);
-        cands.truncate(limit);
+        let classes = ["errno", "sigkill@", "signal@", "dest-"];
+        let per = limit / classes.len();
+        let mut picked: Vec<(String, Scenario)> = Vec::new();
+        let mut rest: Vec<(String, Scenario)> = Vec::new();
+        let mut counts = [0usize; 4];
+        for c in cands {
+            let ci = classes.iter().position(|p| c.0.starts_with(p)).unwrap_or(0);
+            if counts[ci] < per {
+                counts[ci] += 1;
+                picked.push(c);
+            } else {
+                rest.push(c);
+            }
+        }
+        while picked.len() < limit {
+            match rest.pop() {
+                Some(c) => picked.push(c),
+                None => break,
+            }
+        }
+        cands = picked;
     }
     cands
 }
